@@ -442,6 +442,12 @@ class RTDCWriter:
 
         events = self.h5file.require_group("events")
 
+        if (feat != "contour" and not isinstance(data, dict)
+                and np.ndim(data) > 0 and len(data) == 0):
+            # Reject empty data before anything is removed from the
+            # file in "replace" mode.
+            raise ValueError(f"Empty data object for '{feat}'")
+
         # replace data?
         if feat in events and self.mode == "replace":
             if feat == "trace":
